@@ -46,6 +46,8 @@ func checkC03(c *Ctx) {
 	ruleNoRuneReencoding(c, "C03.p")
 	c.rule("C03.q", "no item is sent ahead of one held back in a one-slot buffer (LIST-STATUS entries keep their order and their STATUS)", 1)
 	ruleNoOvertakingHeldItem(c, "C03.q")
+	c.rule("C03.r", "the client expects the embedded-message fields of a body structure for every subtype the backend supplies them for", 1)
+	ruleEmbeddedMessageTypes(c, "C03.r")
 	ruleOptionDefaulting(c, "C03.h")
 }
 
